@@ -232,7 +232,11 @@ def gen_file(rng):
         f1, f2 = rng.choice([(0, 0), (2, 2), (0, 2), (2, 0)])
         body.append(f"{goofitio.render_tree(t)}   {f1} {rng.choice(ampio.NUM_SPELL)} 0.01   {f2} {rng.choice(ampio.NUM_SPELL)} 0.02")
     sup = goofitio.support_lines(lines, rng)
-    extra = [f"D0_radius   2   0.0037559   0", f"myPar::x{rng.randint(0, 9)}   0   1.5   0.1"][: rng.randint(0, 2)]
+    extra = [f"D0_radius   2   0.0037559   0", f"myPar::x{rng.randint(0, 9)}   0   1.5   0.1",
+             f"K*(892)bar0_mass   0   895.5512{rng.randint(1, 9)}   0.2000001", f"rho(770)0_mass   2   775.26004{rng.randint(1, 9)}   0",
+             f"phi(1020)0_width   0   4.2490000{rng.randint(1, 9)}e-3   1.30000007e-5"]
+    rng.shuffle(extra)
+    extra = extra[: rng.randint(1, 5)]
     rows = body + sup + extra
     return "EventType " + " ".join(ev) + "\n" + "\n".join(rows) + "\n"
 
